@@ -760,6 +760,9 @@ func (sc *Scope) trCall(x ECall) (Term, types.Type) {
 			r = IfVal(a)
 		}
 		return Base(r), tInt
+	case "lastselectchan":
+		// the channel polled by the most recent non-blocking select
+		return sc.heap("sel!chan", SInt), tInt
 	case "lastselect":
 		// outcome of the most recent non-blocking select: 0 = received (cancelled), -1 = default
 		return sc.heap("sel!last", SInt), tInt
